@@ -29,21 +29,21 @@ PROPS = {
         'assumptions': [],
     },
     'C01': {
-        'lean': ['H8.Props.C01', 'H8.Props.C08', 'H8.Props.C01M', 'H8.Props.C01N', 'H8.Props.C01L'],
+        'lean': ['H8.Props.C01', 'H8.Props.C08', 'H8.Props.C01M', 'H8.Props.C01N', 'H8.Props.C01L', 'H8.Props.C02I', 'H8.Props.C08D'],
         'gen': ['consts', 'buscost', 'busmap', 'dispatch'],
         'runs': [{'mode': 'step', 'shards': 16}],
         'rule': "single-step cases on the real Cpu (fetch+exec through the verif hook) from a tagged background memory (every byte = hash of its address) with the full register file, CCR, PC, cost and the complete delta of all five stores compared: per form of spec/isa.tbl every combination of the register fields (x2), all 256 initial CCR values, every value of immediate/bit/condition fields, seeded random instances with boundary-value register files and operand addresses at both ends of on-chip RAM, DRAM and the vector area; address registers with zero upper byte (the upper byte is C08's subject). distinct non-trivial = distinct (form, first instruction bytes, resulting register file) triples of in-domain cases.",
         'assumptions': ['the hand-written Model/Cpu.lean mirrors the Rust handlers (checked by the correspondence run on every case); only its dispatch tables are regenerated from source'],
     },
     'C02': {
-        'lean': ['H8.Props.C02', 'H8.Props.C02M'],
+        'lean': ['H8.Props.C02', 'H8.Props.C02M', 'H8.Props.C02I'],
         'gen': ['consts', 'buscost', 'busmap', 'dispatch'],
         'runs': [{'mode': 'step', 'shards': 16}],
         'rule': 'single-step cases on the real Cpu (fetch+exec through the verif hook) from a tagged background memory (every byte = hash of its address) with the full register file, CCR, PC, cost and the complete delta of all five stores compared: per form of spec/isa.tbl every combination of the register fields (x2), all 256 initial CCR values, every value of immediate/bit/condition fields, seeded random instances with boundary-value register files and operand addresses at both ends of on-chip RAM, DRAM and the vector area; byte forms: the (dest, src, carry-in) lattice (quick: 1/8 of all 131072 triples, offset by the seed; thorough: all), word forms: every 16-bit value against partner values, long forms: carry-chain boundary values. distinct non-trivial = distinct (form, first instruction bytes, resulting register file) triples of in-domain cases.',
         'assumptions': ['the hand-written Model/Cpu.lean mirrors the Rust handlers (checked by the correspondence run on every case); only its dispatch tables are regenerated from source'],
     },
     'C03': {
-        'lean': ['H8.Props.C03'],
+        'lean': ['H8.Props.C03', 'H8.Props.C02I'],
         'gen': ['consts', 'buscost', 'busmap', 'dispatch'],
         'runs': [{'mode': 'step', 'shards': 16}],
         'rule': 'single-step cases on the real Cpu (fetch+exec through the verif hook) from a tagged background memory (every byte = hash of its address) with the full register file, CCR, PC, cost and the complete delta of all five stores compared: per form of spec/isa.tbl every combination of the register fields (x2), all 256 initial CCR values, every value of immediate/bit/condition fields, seeded random instances with boundary-value register files and operand addresses at both ends of on-chip RAM, DRAM and the vector area; 8/16-bit operands swept as in C02 with both carry-in values for ROTXL/ROTXR. distinct non-trivial = distinct (form, first instruction bytes, resulting register file) triples of in-domain cases.',
@@ -57,7 +57,7 @@ PROPS = {
         'assumptions': ['the hand-written Model/Cpu.lean mirrors the Rust handlers (checked by the correspondence run on every case); only its dispatch tables are regenerated from source'],
     },
     'C05': {
-        'lean': ['H8.Props.C05', 'H8.Lemmas.MemBE', 'H8.Props.C05H'],
+        'lean': ['H8.Props.C05', 'H8.Lemmas.MemBE', 'H8.Props.C05H', 'H8.Props.C05S'],
         'gen': ['consts', 'buscost', 'busmap', 'dispatch'],
         'runs': [{'mode': 'step', 'shards': 16}],
         'rule': 'single-step cases on the real Cpu (fetch+exec through the verif hook) from a tagged background memory (every byte = hash of its address) with the full register file, CCR, PC, cost and the complete delta of all five stores compared: per form of spec/isa.tbl every combination of the register fields (x2), all 256 initial CCR values, every value of immediate/bit/condition fields, seeded random instances with boundary-value register files and operand addresses at both ends of on-chip RAM, DRAM and the vector area; 16 conditions x 256 CCR x both Bcc forms, all even 8-bit displacements, return frames with non-zero top byte. distinct non-trivial = distinct (form, first instruction bytes, resulting register file) triples of in-domain cases.',
@@ -78,7 +78,7 @@ PROPS = {
         'assumptions': ['the hand-written Model/Cpu.lean mirrors the Rust handlers (checked by the correspondence run on every case); only its dispatch tables are regenerated from source'],
     },
     'C08': {
-        'lean': ['H8.Props.C08'],
+        'lean': ['H8.Props.C08', 'H8.Props.C08D'],
         'gen': ['consts', 'buscost', 'busmap', 'dispatch'],
         'runs': [{'mode': 'step', 'shards': 16}],
         'rule': 'single-step cases on the real Cpu (fetch+exec through the verif hook) from a tagged background memory (every byte = hash of its address) with the full register file, CCR, PC, cost and the complete delta of all five stores compared: per form of spec/isa.tbl every combination of the register fields (x2), all 256 initial CCR values, every value of immediate/bit/condition fields, seeded random instances with boundary-value register files and operand addresses at both ends of on-chip RAM, DRAM and the vector area; base registers with every upper byte, sums that wrap modulo 2^24, all EA kinds incl. stack and @@aa:8. distinct non-trivial = distinct (form, first instruction bytes, resulting register file) triples of in-domain cases.',
